@@ -666,6 +666,43 @@ func propC07(r *Run, w *World) {
 		}
 	}
 
+	// exit: the name the decoder prints for a negative value comes from AuditErrnoToName and is
+	// resolved by the encoder through AuditErrnoToNum: every printed name must resolve, to the
+	// same number (the two tables are separate literals)
+	{
+		e2n, _, _, err1 := w.MapLit("auparse", "AuditErrnoToNum")
+		n2e, _, _, err2 := w.MapLit("auparse", "AuditErrnoToName")
+		if err1 != nil || err2 != nil {
+			if err1 != nil {
+				r.Anchor(err1)
+			}
+			if err2 != nil {
+				r.Anchor(err2)
+			}
+		} else {
+			toNum := map[string]uint64{}
+			for _, kv := range e2n {
+				k, _ := cStr(kv.KeyC)
+				if v, ok := cUint(kv.ValC); ok {
+					toNum[k] = v
+				}
+			}
+			var bad []string
+			pos := token.NoPos
+			for _, kv := range n2e {
+				n, ok1 := cUint(kv.KeyC)
+				name, ok2 := cStr(kv.ValC)
+				if back, has := toNum[name]; !ok1 || !ok2 || !has || back != n {
+					bad = append(bad, fmt.Sprintf("%d→%s", n, name))
+					pos = kv.Pos
+				}
+			}
+			sort.Strings(bad)
+			r.Check(len(bad) == 0, "field exit: every printed errno name is accepted", pos, fmt.Sprintf("%d names", len(n2e)),
+				fmt.Sprintf("ToCommandLine lists an exit value by a name Build does not resolve (to the same number): %s — the listing of a rule Build accepted by number is rejected or re-encodes to another value", strings.Join(bad, ", ")))
+		}
+	}
+
 	// R3
 	r.Rule("C07.R3", "the operator is rendered: every rendered filter argument (-F, -C, arch) includes reverseOperatorsTable[fieldFlags[i]] of the same filter", 3)
 	{
@@ -858,6 +895,112 @@ func propC07(r *Run, w *World) {
 		r.Check(set(fromStr) == set(encStr), "fromAuditRuleData vs addFilter", x.fromARD.Pos(), set(encStr), fmt.Sprintf("decoder takes strings for {%s}, encoder stores strings for {%s}", set(fromStr), set(encStr)))
 		r.Check(set(decStr) == set(encStr), "ToCommandLine vs addFilter", x.toCmd.Pos(), "", fmt.Sprintf("printer takes strings for {%s}, encoder stores strings for {%s}", set(decStr), set(encStr)))
 		r.Check(len(encStr) >= 14, "string class size", x.addFilter.Pos(), fmt.Sprint(len(encStr)), fmt.Sprintf("only %d string-class fields", len(encStr)))
+	}
+
+	// R9 the listing is read back by flags.Parse
+	flagPatterns(r, w, "C07.R9")
+
+	// R8 the string cursor of the rendering loop
+	r.Rule("C07.R8", "strings are handed out from the first: the index with which the filter rendering loop takes a string from r.strings is 0 when the loop is entered (a loop-carried counter whose entry value is 0, or a local that nothing outside the loop sets to anything but 0); the watch detection that runs before it has its own cursor", 1)
+	{
+		loop, _ := x.renderLoop()
+		if loop == nil {
+			r.Fail("rendering loop", x.toCmd.Pos(), "cannot find the filter rendering loop in ToCommandLine")
+		} else {
+			n := 0
+			instrsOf(x.toCmd, func(in ssa.Instruction) {
+				if !loop.Body[in.Block()] {
+					return
+				}
+				var idx ssa.Value
+				var base ssa.Value
+				switch v := in.(type) {
+				case *ssa.IndexAddr:
+					idx, base = v.Index, v.X
+				case *ssa.Index:
+					idx, base = v.Index, v.X
+				default:
+					return
+				}
+				if !strings.HasSuffix(Term(base), ".strings") {
+					return
+				}
+				n++
+				key := "string cursor " + Term(idx)
+				// through conversions
+				for {
+					if c, ok := idx.(*ssa.Convert); ok {
+						idx = c.X
+						continue
+					}
+					break
+				}
+				switch v := idx.(type) {
+				case *ssa.Phi:
+					ok := v.Block() == loop.Header
+					for i, e := range v.Edges {
+						if loop.Body[v.Block().Preds[i]] {
+							continue
+						}
+						if k, isK := constInt(e); !isK || k != 0 {
+							ok = false
+						}
+					}
+					r.Check(ok, key, in.Pos(), "starts at 0", "the rendering loop takes its first string at an index that is not 0 on entry: "+Term(v))
+				case *ssa.UnOp:
+					al, isAl := v.X.(*ssa.Alloc)
+					if v.Op != token.MUL || !isAl {
+						r.Undecided(key, in.Pos(), "the string index is neither a loop counter nor a local variable")
+						return
+					}
+					// every store to the cell outside the loop stores 0; closures that bind it and store to it are not called outside the loop
+					ok := true
+					why := ""
+					var scanFn func(f *ssa.Function, cell ssa.Value, inLoopOnly bool)
+					scanFn = func(f *ssa.Function, cell ssa.Value, outer bool) {
+						instrsOf(f, func(j ssa.Instruction) {
+							switch y := j.(type) {
+							case *ssa.Store:
+								if y.Addr != cell {
+									return
+								}
+								if outer && loop.Body[y.Block()] {
+									return
+								}
+								if k, isK := constInt(y.Val); !isK || k != 0 {
+									ok = false
+									why = "it is set to " + Term(y.Val) + " outside the loop (" + x.w.Prog.Fset.Position(y.Pos()).String() + ")"
+								}
+							case *ssa.MakeClosure:
+								fn2, _ := y.Fn.(*ssa.Function)
+								for bi, b := range y.Bindings {
+									if b == cell && fn2 != nil && bi < len(fn2.FreeVars) {
+										if !freeVarOnlyLoaded(fn2.FreeVars[bi], 0) {
+											// the closure writes the cursor: it must only be called inside the loop
+											for _, ref := range *y.Referrers() {
+												if ci, isCall := ref.(ssa.CallInstruction); isCall && ci.Common().Value == ssa.Value(y) && loop.Body[ref.Block()] {
+													continue
+												}
+												if _, isDbg := ref.(*ssa.DebugRef); isDbg {
+													continue
+												}
+												ok = false
+												why = "a closure that advances it is used outside the loop"
+											}
+										}
+									}
+								}
+							}
+						})
+					}
+					scanFn(x.toCmd, al, true)
+					r.Check(ok, key, in.Pos(), "only 0 is stored outside the loop", "the rendering loop can start with its string cursor already advanced: "+why+" — the values of the string fields are then taken from the wrong entries or the listing fails")
+				default:
+					r.Undecided(key, in.Pos(), "the string index is neither a loop counter nor a local variable")
+				}
+			})
+			r.Check(n >= 1, "rendering loop takes strings", x.toCmd.Pos(), "", "no access to r.strings in the rendering loop")
+		}
 	}
 
 	// R7 the watch form
@@ -1206,6 +1349,15 @@ func propC06(r *Run, w *World) {
 		enc := x.encoderArm(x.fields[name])
 		r.Check(len(enc.Problems) == 0 && enc.Paths > 0, "addFilter field "+name, x.addFilter.Pos(), fmt.Sprintf("%d paths, parser %s string=%v", enc.Paths, enc.Parser, enc.StringCls),
 			fmt.Sprintf("addFilter(%s): %s", name, strings.Join(enc.Problems, "; ")))
+		// which fields carry a string in the buffer is the kernel's choice (audit_data_to_entry:
+		// the LSM subject/object fields 13-17 and 19-23, AUDIT_WATCH 105, AUDIT_DIR 107,
+		// AUDIT_EXE 112, AUDIT_FILTERKEY 210); everything else is a number in values[i]
+		if len(enc.Problems) == 0 && enc.Paths > 0 {
+			code := x.fields[name]
+			kernelString := (code >= 13 && code <= 17) || (code >= 19 && code <= 23) || code == 105 || code == 107 || code == 112 || code == 210
+			r.Check(enc.StringCls == kernelString, "addFilter field "+name+" class", x.addFilter.Pos(), fmt.Sprintf("string=%v", kernelString),
+				fmt.Sprintf("addFilter(%s): the encoder treats field %d as string=%v, the kernel as string=%v: the value slot holds the wrong thing and the buffer the wrong bytes", name, code, enc.StringCls, kernelString))
+		}
 	}
 	{
 		fn := x.addInter
@@ -1368,6 +1520,9 @@ func propC06(r *Run, w *World) {
 		}
 		r.Check(nApp >= 1 && nAll >= 1, "addSyscall has a list path and an all path", fn.Pos(), "", fmt.Sprintf("%d list paths, %d all paths", nApp, nAll))
 	}
+
+	// R9 what was asked for reaches Build through flags.Parse
+	flagPatterns(r, w, "C06.R9")
 
 	// R7 value widths
 	r.Rule("C06.R7", "value widths: every conversion of a strconv.ParseInt/ParseUint result in the value parsers has bitSize <= the target width with matching signedness (or is a deliberate two's-complement reinterpretation of a signed 32-bit parse)", 6)
